@@ -532,7 +532,8 @@ class ExprMixin:
             strict = getattr(self, "contract", None) and node is not None and ast.unparse(node) in self.contract.strict_index
             if strict:
                 self.may_raise(st, i < 0, "IndexError:negative-position", where)
-            return unbox(elem_spec(base), Q.At(s, norm_index(i, n)), st)
+            # in specifications s[i] is the mathematical at(s, i) (no negative-index normalisation)
+            return unbox(elem_spec(base), Q.At(s, i if self.spec_mode else norm_index(i, n)), st)
         if base.kind == "dict":
             kb = box(idx, st)
             if not self.spec_mode:
